@@ -179,8 +179,8 @@ def render_graph(root, max_nodes=6000):
     return clist(rows), r, idmap, keep
 
 
-def coq_json(j, idmap):
-    """Real JSON (after json.loads) -> json term; "__id" marks renumbered through idmap."""
+def _cj_raw(j):
+    """JSON as is (no mark is renumbered): user data."""
     if j is None:
         return "JNull"
     if isinstance(j, bool):
@@ -192,18 +192,47 @@ def coq_json(j, idmap):
     if isinstance(j, str):
         return f"(JStr {cstr(j)})"
     if isinstance(j, list):
+        return "(JArr " + clist([_cj_raw(x) for x in j]) + ")"
+    return "(JObj " + clist([f"({cstr(k)}, {_cj_raw(v)})" for k, v in j.items()]) + ")"
+
+
+_RAW_VALUE_TYPES = ("enum", "SpecType", "datetime", "re.Pattern", "ref")
+_SEQ_TYPES = ("set", "tuple", "deque")
+
+
+def coq_json(j, idmap):
+    """Real JSON (after json.loads) -> json term; the "__id" marks of the ENCODER's wrapper objects
+    are renumbered through idmap.  The traversal follows the structure the encoder emits, so that
+    user dictionaries (which may themselves have keys like "__id" or "__type") are never taken for
+    wrappers: a dict at a value position is a wrapper iff it has "__type"; the "value" of a
+    dict/dataclass/Action wrapper is a mapping from user keys / field names to value positions."""
+    if isinstance(j, list):
         return "(JArr " + clist([coq_json(x, idmap) for x in j]) + ")"
+    if not isinstance(j, dict) or "__type" not in j:
+        return _cj_raw(j)
+    t = j.get("__type")
     items = []
-    wrapper = "__type" in j
     for k, v in j.items():
-        if wrapper and k == "__id" and isinstance(v, int) and not isinstance(v, bool):
+        if k == "__id" and isinstance(v, int) and not isinstance(v, bool):
             if v not in idmap:
                 raise TemporaryInRefs(str(v))
             items.append(f'("__id", JInt {C.coq_Z(idmap[v])})')
-        elif wrapper and j.get("__type") == "RailsConfig" and k == "value":
+        elif k == "value" and t == "RailsConfig":
             items.append('("value", JInt 0)')
+        elif k == "value" and isinstance(t, str) and t in _SEQ_TYPES and isinstance(v, list):
+            items.append('("value", (JArr ' + clist([coq_json(x, idmap) for x in v]) + "))")
+        elif k == "value" and isinstance(t, str) and t not in _RAW_VALUE_TYPES and isinstance(v, dict):
+            items.append('("value", (JObj ' + clist([f"({cstr(k2)}, {coq_json(v2, idmap)})" for k2, v2 in v.items()]) + "))")
+        elif k == "items" and t == "dict" and isinstance(v, list):
+            prs = []
+            for pr in v:
+                if isinstance(pr, list) and len(pr) == 2:
+                    prs.append("(JArr " + clist([coq_json(pr[0], idmap), coq_json(pr[1], idmap)]) + ")")
+                else:
+                    prs.append(_cj_raw(pr))
+            items.append('("items", (JArr ' + clist(prs) + "))")
         else:
-            items.append(f"({cstr(k)}, {coq_json(v, idmap)})")
+            items.append(f"({cstr(k)}, {_cj_raw(v)})")
     return "(JObj " + clist(items) + ")"
 
 
